@@ -4,3 +4,4 @@ pub mod model;
 pub mod props;
 pub mod runner;
 pub mod thin;
+pub mod bytefuzz;
